@@ -33,6 +33,7 @@ const (
 	KSeq                   // statically known sequence Elems (slices built by append / literals)
 	KSliceOf               // slice covering N elements of the array at Loc
 	KFunc                  // function value Fn
+	KAgg                   // aggregate (struct/array) value whose parts are stored under Loc
 )
 
 type AV struct {
@@ -114,6 +115,8 @@ func (a AV) name() string {
 		if a.Fn != nil {
 			return "func:" + a.Fn.String()
 		}
+	case KAgg:
+		return "agg:" + a.Loc
 	}
 	return "?"
 }
